@@ -30,6 +30,8 @@ def run(model, rep, tier):
     rep.explanation = __doc__.strip()
     from ._common import caches_for
     caches_for(model, rep, 'C01')
+    from ._common import inverse_map_placed
+    inverse_map_placed(model, rep, [('OnsagerCalc', 'VacancyMediated', '__init__', 'invmap')])
     rep.not_decided = 'numerical equality of Lss/Lsv/L1vv with the exact one-solute/one-vacancy Markov chain; ' \
                       'correctness of the star / vector-star expansions themselves'
     rep.rule('exchange-symmetric', 'fragment is invariant under swapping the two endpoints of a jump')
